@@ -728,7 +728,7 @@ func c08Corpus() []geom.Geometry {
 
 func c08Main(r *engine.Run) {
 	r.Level = "fault_enumeration"
-	r.Rule = "corpus of valid encodings (WKB little/big endian, TWKB with header subsets, WKT, GeoJSON, Feature, FeatureCollection of ~70 geometries covering 7 types × 4 coordinate types × empty/1/2 members/nested) × fault operators: every truncation, every single-byte substitution (all 256 values at order/type/count/header positions, boundary values elsewhere), every 4-byte count := {0,1,2^31-1,2^31,2^32-1,...} in both byte orders, varints 2^k / 2^64-1 / over-long spliced at every position, every token deleted / duplicated / replaced by each vocabulary token, every prefix; WKT templates with every control point scaled by every value of {1,3e-200,3e200,1e308} (magnitude mixtures); GeometryCollections nested 16 / 256 / 2000 (thorough 7000) deep in every format, and WKB / TWKB levels each claiming as many members as the remaining input could hold; plus all byte strings of length ≤ 2 and all strings of length 3..L over {00,01,02,07,10,ff}. Each case runs in a sacrificial process (RLIMIT_AS 4 GiB) through every entry point of its format; oracle: no panic, no process death, TotalAlloc ≤ 1 MiB + 512·len, returned geometries valid and re-encodable. non-trivial = distinct mutated inputs that some entry point still accepts; outcomes = distinct (format, per-entry-point outcome) tuples"
+	r.Rule = "corpus of valid encodings (WKB little/big endian, TWKB with header subsets, WKT, GeoJSON, Feature, FeatureCollection of ~70 geometries covering 7 types × 4 coordinate types × empty/1/2 members/nested) × fault operators: every truncation, every single-byte substitution (all 256 values at order/type/count/header positions, boundary values elsewhere), every 4-byte count := {0,1,2^31-1,2^31,2^32-1,...} in both byte orders, varints 2^k / 2^64-1 / over-long spliced at every position, every token deleted / duplicated / replaced by each vocabulary token, every prefix; WKT templates with every control point scaled by every value of {1,3e-200,3e200,1e308} (magnitude mixtures); GeometryCollections nested 16 / 256 / 2000 (thorough 7000) deep in every format, and WKB / TWKB levels each claiming as many members as the remaining input could hold; GeoJSON coordinates that are any nesting of [] and null up to depth 3 (thorough 4) for every type; plus all byte strings of length ≤ 2 and all strings of length 3..L over {00,01,02,07,10,ff}. Each case runs in a sacrificial process (RLIMIT_AS 4 GiB) through every entry point of its format; oracle: no panic, no process death, TotalAlloc ≤ 1 MiB + 512·len, returned geometries valid and re-encodable. non-trivial = distinct mutated inputs that some entry point still accepts; outcomes = distinct (format, per-entry-point outcome) tuples"
 	corpus := c08Corpus()
 	r.States.Add(int64(len(corpus)))
 	var cases []faultCase
@@ -827,6 +827,45 @@ func c08Main(r *engine.Run) {
 		}
 	}
 	r.Extra["grammar_geojson_members"] = len(members)
+	// skeletons without a single number: every nesting of [] and null up to depth 3 (thorough 4) and
+	// width 2 as the coordinates of each type (empty rings, empty members, null in place of an array),
+	// alone, as the only member of a collection and next to a member that does have a position
+	{
+		depth := 3
+		if r.Thorough() {
+			depth = 4
+		}
+		var skel func(d int) []string
+		skel = func(d int) []string {
+			out := []string{"[]", "null"}
+			if d > 1 {
+				sub := skel(d - 1)
+				for _, a := range sub {
+					out = append(out, "["+a+"]")
+				}
+				for _, a := range sub {
+					for _, b := range sub {
+						out = append(out, "["+a+","+b+"]")
+					}
+				}
+			}
+			return out
+		}
+		n := 0
+		for _, t := range gjTemplates {
+			for _, sk := range skel(depth) {
+				m := fmt.Sprintf(`{"type":%q,"coordinates":%s}`, t.typ, sk)
+				cases = append(cases, faultCase{fmtGeoJSON, []byte(m), "skeleton member"})
+				n++
+				if len(sk) <= 12 || !r.Thorough() {
+					cases = append(cases, faultCase{fmtGeoJSON, []byte(`{"type":"GeometryCollection","geometries":[` + m + `]}`), "skeleton in a collection"},
+						faultCase{fmtGeoJSON, []byte(`{"type":"GeometryCollection","geometries":[` + m + `,{"type":"Point","coordinates":[1,2]}]}`), "skeleton next to a point"})
+					n += 2
+				}
+			}
+		}
+		r.Extra["skeleton_geojson_cases"] = n
+	}
 	r.Extra["nesting_cases"] = nestingFaults(r.Thorough(), &cases)
 	nmix := magnitudeMixtures(r.Thorough(), &cases)
 	r.Extra["magnitude_mixture_cases"] = nmix
